@@ -15,7 +15,7 @@ if of_01.deferredSender is None:
   of_01.DeferredSender.start = lambda self: None
   of_01.deferredSender = of_01.DeferredSender()
 
-LENS = dict(r80=80, h16=16, huge=40000, max=65535, h8=8, e9=9, c12=12, m16=16, f72=72, f88=88, p64=64, big=1518, b2040=2040, b2047=2047,
+LENS = dict(hv8=8, r80=80, h16=16, huge=40000, max=65535, h8=8, e9=9, c12=12, m16=16, f72=72, f88=88, p64=64, big=1518, b2040=2040, b2047=2047,
             b2048=2048, b2049=2049, b2056=2056)
 MAC = "00:00:00:00:00:07"
 
@@ -30,6 +30,8 @@ def build(side, kind, xid):
   if side == "ctl":       # switch -> controller messages
     if kind == "h8":
       m = rb.barrier_reply(xid)
+    elif kind == "hv8":
+      m = bytes([4]) + rb.hello(xid)[1:]          # a HELLO of OpenFlow 1.3: accepted (version negotiation)
     elif kind == "r80":
       m = rb.features_reply(0x0102030405060708, ports=[rb.phy_port(3, MAC, "p3")], n_buffers=256, xid=xid)
     elif kind == "h16":
